@@ -42,13 +42,18 @@ OPS = ["setNumberDensity", "updateNumberDensities", "setNumberDensities", "chang
 
 def gen_plan(rng, index, tier):
     sym = rng.choice(["full", "third periodic", "third periodic"])
-    rings = rng.choice([1, 2, 2])
+    rings = rng.choice([1, 2, 2, 3])
     bp = {"rings": rings, "symmetry": sym, "nfuel": rng.choice([1, 2]), "plate": rng.random() < 0.4, "plenum": rng.random() < 0.4, "sfp": False, "geom": rng.choice(["hex", "hex_corners_up"])}
     if sym != "full":
         bp["third"] = True
     cfg = {"reactor": "gen", "blueprint": bp, "settings": {"nCycles": 1, "burnSteps": 1}, "actors": []}
     steps = []
     for _ in range(rng.randint(4, 30)):
+        if sym != "full" and rng.random() < 0.12:
+            # edge assemblies on / off: blocks on the symmetry lines become half blocks (and back);
+            # the core's mass and volume must not change
+            steps.append({"op": "edge", "level": "core", "idx": 0, "nuc": 0, "nuc2": 0, "f": 1.0, "frac": 0.1, "mass": 1.0})
+            continue
         steps.append(
             {
                 "op": rng.choice(OPS),
@@ -203,7 +208,31 @@ class Runner:
         objs = c06.objects_at_level(self.r, st["level"])
         return objs[st["idx"] % len(objs)]
 
+    def edge(self, k, st):
+        from armi.reactor.converters import geometryConverters as gc
+
+        core = self.core
+        if core.isFullCore:
+            return False
+        # add and remove in one step: between the two the twin assemblies on the symmetry lines must
+        # stay identical, so no composition edit may come in between
+        m0, v0, mu0 = float(core.getMass()), float(core.getVolume()), float(core.getMass("U235"))
+        edger = gc.EdgeAssemblyChanger()
+        for what in ("addEdgeAssemblies", "removeEdgeAssemblies"):
+            getattr(edger, what)(core)
+            m1, v1, mu1 = float(core.getMass()), float(core.getVolume()), float(core.getMass("U235"))
+            self.probe("edge_" + what)
+            for nm, a, b in (("total mass", m0, m1), ("volume", v0, v1), ("U235 mass", mu0, mu1)):
+                if not rel(a, b):
+                    self.fail("C02.symmetry", f"step {k}: {what} changed the core's {nm}: {a} -> {b} (blocks cut by symmetry lines must count with their symmetry factor)", what=nm.split()[-1], op=what)
+            if what == "addEdgeAssemblies":
+                self.check_levels(k, st)
+        self.sig.append(("core", "edge"))
+        return True
+
     def apply(self, k, st):
+        if st["op"] == "edge":
+            return self.edge(k, st)
         obj = self.target(st)
         nucs = sorted(n for n, v in obj.getNumberDensities().items())
         if not nucs:
